@@ -647,7 +647,7 @@ def constants_entry(base, name="constants"):
             "features": {"pkgs": 1}, "flags": {}, "source": "constants"}
 
 
-def veneers_entry(base, name="veneers"):
+def veneers_entry(base, name="veneers", langs=None):
     """Builder transformations in both rule groups (common `all` and per language) that do not commute, factories in two
     packages (java/php factory jennies, API reference virtual objects), options on disjunctions (converters)."""
     d = os.path.join(base, name)
@@ -664,9 +664,10 @@ def veneers_entry(base, name="veneers"):
         for lang in ("go", "java", "php", "python", "typescript"):
             _write(os.path.join(d, "veneers", "%s_%s.yaml" % (lang, pkg)), yaml_dump({"language": lang, "package": pkg,
                    "options": [{"omit": {"by_name": "Root.kind"}}, {"rename": {"by_name": "Root.title", "as": "heading"}}]}))
-    y = write_pipeline(d, "pipeline", inputs, LANGS, types=True, builders=True, converters=True, api_reference=True,
+    langs = list(langs or LANGS)
+    y = write_pipeline(d, "pipeline", inputs, langs, types=True, builders=True, converters=True, api_reference=True,
                        veneers=["%__config_dir%/veneers"])
-    return {"id": name, "yaml": y, "inspect": True, "outdir": "out", "langs": list(LANGS), "pkgs": ["alpha", "beta"],
+    return {"id": name, "yaml": y, "inspect": True, "outdir": "out", "langs": langs, "pkgs": ["alpha", "beta"],
             "features": {"pkgs": 1, "cands": 1}, "flags": {}, "source": "veneers"}
 
 
@@ -731,7 +732,7 @@ def culibs_entry(base, name="cuelibs"):
 GROWTH_ENTRIES = {"constants": constants_entry, "veneers": veneers_entry, "passes": passes_entry, "cuelibs": culibs_entry}
 
 
-def veneer_params_entry(base, name="veneerparams"):
+def veneer_params_entry(base, name="veneerparams", langs=None):
     """Every builder / option rule that takes a map- or list-valued parameter, with >= 2 entries that OVERLAP (a rename map whose
     values are also keys, lists whose items differ only in letter case or name the same thing twice)."""
     d = os.path.join(base, name)
@@ -746,6 +747,13 @@ def veneer_params_entry(base, name="veneerparams"):
         "Point": {"type": "object", "properties": {"x": {"type": "integer"}, "y": {"type": "integer"}, "z": {"type": "integer"}}}}}
     _write(os.path.join(d, "alpha.schema.json"), json.dumps(doc, indent=1))
     string_t = {"kind": "scalar", "scalar": {"scalar_kind": "string"}}
+    strings_t = {"kind": "array", "array": {"value_type": string_t}}
+    # an object default on a struct-typed field: struct_fields_as_arguments spreads it over the new arguments
+    _write(os.path.join(d, "common.yaml"), yaml_dump({"passes": [
+        {"fields_set_default": {"defaults": {"alpha.Root.point": {"x": 1, "y": 2}, "alpha.Point.x": 5}}}]}))
+    for lang in ("go", "java"):
+        _write(os.path.join(d, "veneers", lang + ".yaml"), yaml_dump({"language": lang, "package": "alpha", "options": [
+            {"array_to_append": {"by_name": "Root.extraTags"}}]}))
     _write(os.path.join(d, "veneers", "all.yaml"), yaml_dump({"language": "all", "package": "alpha", "builders": [
         # rename map: a swap; exclude list: two spellings of one name
         {"merge_into": {"destination": "Root", "source": "Limits", "under_path": "limits",
@@ -756,6 +764,9 @@ def veneer_params_entry(base, name="veneerparams"):
         {"promote_options_to_constructor": {"by_object": "Point", "options": ["y", "x", "y"]}},
         {"properties": {"by_object": "Root", "set": [{"name": "scratch", "type": string_t}, {"name": "Scratch", "type": string_t}]}},
         {"initialize": {"by_object": "Root", "set": [{"property": "name", "value": "first"}, {"property": "name", "value": "second"}]}},
+        # an option created by a common rule, which language-specific option rules then act on (array_to_append in go.yaml)
+        {"add_option": {"by_object": "Root", "option": {"name": "extraTags", "arguments": [{"name": "extraTags", "type": strings_t}],
+                        "assignments": [{"path": "tags", "method": "direct", "value": {"argument": {"name": "extraTags", "type": strings_t}}}]}}},
     ], "options": [
         {"rename_arguments": {"by_name": "Root.name", "as": ["title"]}},
         {"unfold_boolean": {"by_name": "Root.enabled", "true_as": "enable", "false_as": "disable"}},
@@ -765,9 +776,10 @@ def veneer_params_entry(base, name="veneerparams"):
         {"add_comments": {"by_names": {"object": "Root", "options": ["name", "tags", "name"]}, "comments": ["one", "two"]}},
     ]}))
     inputs = [{"jsonschema": {"path": "%__config_dir%/alpha.schema.json", "package": "alpha"}}]
-    y = write_pipeline(d, "pipeline", inputs, LANGS, types=True, builders=True, converters=True, api_reference=True,
-                       veneers=["%__config_dir%/veneers"])
-    return {"id": name, "yaml": y, "inspect": True, "outdir": "out", "langs": list(LANGS), "pkgs": ["alpha"],
+    langs = list(langs or LANGS)
+    y = write_pipeline(d, "pipeline", inputs, langs, types=True, builders=True, converters=True, api_reference=True,
+                       veneers=["%__config_dir%/veneers"], common_passes=["%__config_dir%/common.yaml"])
+    return {"id": name, "yaml": y, "inspect": True, "outdir": "out", "langs": langs, "pkgs": ["alpha"],
             "features": {}, "flags": {}, "source": "veneerparams"}
 
 
